@@ -82,7 +82,7 @@ def generate(tier, seed):
                     mid.add(x)
             if len(mid) == len(snu) - 2:
                 snu2 = [snu[0]] + sorted(mid) + [snu[-1]]
-        cases.append(dict(snu2=snu2, fnu=fnu, resp=resp, forder=rng.choice(['incr', 'decr']), source=rng.choice(['memory', 'memory', 'file']),
+        cases.append(dict(rebin_first=(k % 3 == 1), snu2=snu2, fnu=fnu, resp=resp, forder=rng.choice(['incr', 'decr']), source=rng.choice(['memory', 'memory', 'file']),
                           snu=snu, sorder=rng.choice(['incr', 'decr']), flux=flux, flux2=flux2, err=err, alpha=rng.dyadic(-2, 2, 4), beta=rng.dyadic(-2, 2, 4),
                           const=rng.dyadic(0.5, 5, 6), kind=kind, normalize=rng.random() < 0.5))
     return cases
@@ -114,6 +114,11 @@ def impl(case):
         twin = Filter(name='TW', central_wavelength=0.4 * u.micron, nu=np.array(fnu) * 3.0 * u.Hz, response=shared)
     used_nu = [float(x) for x in filt.nu.to(u.Hz).value]
     used_resp = [float(x) for x in filt.response]
+    if case.get('rebin_first'):
+        # the filter is used once before it is normalised / before its response is replaced: later re-binning must follow the current response
+        filt.rebin(np.array(_ordered(case['snu'], case['sorder'])) * u.Hz)
+        if not case['normalize']:
+            filt.response = np.array(filt.response) * 1.0
     if case['normalize']:
         filt.normalize()
         if twin is not None:
